@@ -13,6 +13,10 @@ CLAIMED = {
             "Static: for QUERY/EXECUTE parameters and BATCH every `flags |= C` site and its payload writer are shown to be guarded by the presence of the same field, to use the CQL v4 writer for that item and to write that field; the emission order of every SerializableRequest equals the v4 grammar; opcode/flag constants and the header layout in SerializedRequest::make equal the v4 tables; no narrowing `as` cast of a length/count remains in request building (the two that existed were repaired by a fix: commit). Because each guard depends on one field, the 2^6 option subsets reduce to independent per-field obligations, all checked.",
             "Trusts rustc MIR; CQL v4 tables transcribed by hand; compression libraries and value encodings (C01) out of scope.",
             "DESIGN.md §3 C09"),
+    "C17": ("MIR abstract-state dataflow over ColumnType/NativeType/CollectionType discriminants: may-return-Ok shape sets of every serialize/type_check impl vs. a reference matrix; dominance/cut rules on add_value and TypedRowIterator::new",
+            "Static, whole matrix at once: for each of the ~55 SerializeValue and ~60 DeserializeValue impls of scylla-cql-core the exact set of column-type shapes under which serialize / type_check can return Ok is extracted (through helper gates, delegations and `?`), compared cell by cell with the documented matrix and between the two directions; no CellWriter call is reachable under a rejected shape; add_value's error edge restores the pre-serialisation length and element_count moves only on the Ok edge; TypedRowIterator is only built after R::type_check succeeded. Value-dependent checks inside dynamic CqlValue serialisation (e.g. UDT field-name accounting) are not decided.",
+            "Trusts rustc MIR; reference matrix transcribed from docs/source/data-types; third-party impls out of scope.",
+            "DESIGN.md §3 C17"),
     "C18": ("MIR who-writes census on the atomic + dataflow/dominance on the CAS loop and compute_next exits + call-graph provenance of the frame timestamp",
             "Static, all-paths: `last` is written only by one compare_exchange whose operands are (value loaded this iteration, compute_next(that value)); next_timestamp returns only in the CAS-success region and returns the published value; compute_next returns the clock reading only in the `reading > last` region, else last+c. These shapes make the textbook CAS argument (pairwise distinct, per-thread increasing, any interleaving, any clock) applicable. The generator is shown to be consulted only as the or_else fallback of the statement's own timestamp.",
             "Trusts rustc MIR, compare_exchange semantics; i64 overflow at last+1 and user-provided generators not covered.",
